@@ -274,7 +274,7 @@ def r3_no_inplace(ctx: Ctx, d: Driver, funcs: tp.Optional[tp.Iterable[FuncInfo]]
             has_frozen = any(x == F for x in arr)
             if kind == 'writable' and not has_frozen:
                 ctx.ok(R, site, ev.node, f'target `{ev.what}` is a local allocation ({why[:2]})', key=key)
-            elif has_frozen and not any(x == U for x in arr):
+            elif has_frozen:
                 ctx.bad(R, site, ev.node, f'in-place write to `{ev.what}`, which may be read-only storage owned by a container '
                         '(or already frozen): the write either raises or mutates a live container', key=key)
             elif kind == 'param' and not has_frozen:
